@@ -199,7 +199,28 @@ pub const ALL_TYPES: [&str; 14] = [
     "cidr4", "cidr6", "inet4", "inet6",
 ];
 
+/// The prefix types compiled into the fuzz targets (cargo feature `few-types`): an instrumented
+/// build of all 14 monomorphisations takes 11 minutes, these five take about four.
+pub const FUZZ_TYPES: [&str; 5] = ["u8", "u32", "u128", "ipnet4", "inet6"];
+
+/// Reduced dispatch for the fuzz build.
+#[cfg(feature = "few-types")]
+#[macro_export]
+macro_rules! dispatch_tp {
+    ($name:expr, $f:ident $(, $a:expr)*) => {
+        match $name {
+            "u8" => $f::<(u8, u8)>($($a),*),
+            "u32" => $f::<(u32, u8)>($($a),*),
+            "u128" => $f::<(u128, u8)>($($a),*),
+            "ipnet4" => $f::<ipnet::Ipv4Net>($($a),*),
+            "inet6" => $f::<cidr::Ipv6Inet>($($a),*),
+            other => panic!("prefix type {other} is not compiled into this (few-types) build"),
+        }
+    };
+}
+
 /// Call `$f::<P>($($a),*)` for the type named `$name` (runtime dispatch over the 14 types).
+#[cfg(not(feature = "few-types"))]
 #[macro_export]
 macro_rules! dispatch_tp {
     ($name:expr, $f:ident $(, $a:expr)*) => {
